@@ -193,6 +193,23 @@ func (v ReceiverValidator) validateNonBodyParam(
 	isAnAlias, isAPrimitiveAlias := isPrimitiveAlias(param)
 
 	if (param.Type.IsUniverseType() || isAnEnum || (isAnAlias && isAPrimitiveAlias)) && !isErrType && !isMapType {
+		// The generated routers can only convert these primitives from their textual form
+		if param.Type.IsUniverseType() && !isBindablePrimitive(common.UnwrapArrayTypeString(param.Type.Name)) {
+			diag := diagnostics.NewErrorDiagnostic(
+				receiver.Annotations.FileName(),
+				fmt.Sprintf(
+					"%s parameter '%s' (schema name '%s') is of type '%s' which cannot be bound from a textual request value",
+					passedIn,
+					param.Name,
+					getParamSchemaNameOrFallback(param, "unknown"),
+					param.Type.Name,
+				),
+				diagnostics.DiagReceiverParamNotPrimitive,
+				param.Range,
+			)
+			return &diag
+		}
+
 		return nil
 	}
 
@@ -415,6 +432,30 @@ func getParamSchemaNameOrFallback(param metadata.FuncParam, fallback string) str
 		return fallback
 	}
 	return nameInSchema
+}
+
+// bindablePrimitiveTypes lists the universe types the routing templates know how to convert
+// a textual header/path/query/form value into (see request.switch.param.type.hbs)
+var bindablePrimitiveTypes = map[string]struct{}{
+	"string":  {},
+	"bool":    {},
+	"int":     {},
+	"int8":    {},
+	"int16":   {},
+	"int32":   {},
+	"int64":   {},
+	"uint":    {},
+	"uint8":   {},
+	"uint16":  {},
+	"uint32":  {},
+	"uint64":  {},
+	"float32": {},
+	"float64": {},
+}
+
+func isBindablePrimitive(typeName string) bool {
+	_, exists := bindablePrimitiveTypes[typeName]
+	return exists
 }
 
 func isPrimitiveAlias(param metadata.FuncParam) (bool, bool) {
